@@ -38,6 +38,11 @@ type c12Cfg struct {
 	Method  string      `json:"method"`
 	Expect  bool        `json:"expect_len"` // caller states the expected length (as blob GET does)
 	Ops     int         `json:"ops"`        // number of consecutive logical requests through one client
+	// GapMs: virtual idle time between consecutive logical requests. Prime: a fault scripted for
+	// the very first round trip (outside the explorer's budget), so that the host carries a
+	// failure history when the explored faults arrive after the gap.
+	GapMs int    `json:"gap_ms,omitempty"`
+	Prime string `json:"prime,omitempty"`
 }
 
 func (c c12Cfg) String() string {
@@ -45,7 +50,7 @@ func (c c12Cfg) String() string {
 	for _, m := range c.Mirrors {
 		ms = append(ms, fmt.Sprintf("%d:%s", m.Prio, m.State))
 	}
-	return fmt.Sprintf("limit=%d delay=%dms/%dms up=%d:%s mirrors=[%s] %s expect=%v ops=%d", c.Limit, c.DelayMs, c.MaxMs, c.UpPrio, c.UpState, strings.Join(ms, ","), c.Method, c.Expect, c.Ops)
+	return fmt.Sprintf("limit=%d delay=%dms/%dms up=%d:%s mirrors=[%s] %s expect=%v ops=%d gap=%dms prime=%q", c.Limit, c.DelayMs, c.MaxMs, c.UpPrio, c.UpState, strings.Join(ms, ","), c.Method, c.Expect, c.Ops, c.GapMs, c.Prime)
 }
 
 var c12Body = []byte("0123456789")
@@ -101,6 +106,7 @@ type c12RT struct {
 	op     int
 	const_ string // constant adversary: the same fault at every request
 	faults []string
+	primed bool
 }
 
 func (rt *c12RT) state(host string) string {
@@ -134,7 +140,10 @@ func (rt *c12RT) RoundTrip(req *http.Request) (*http.Response, error) {
 		return r, nil
 	}
 	f := ""
-	if rt.const_ != "" {
+	if rt.cfg.Prime != "" && len(rt.log) == 0 {
+		f = rt.cfg.Prime
+		rt.primed = true
+	} else if rt.const_ != "" {
 		f = rt.const_
 	} else {
 		ch := rt.c.Choose("net", 1+len(c12Faults), nil)
@@ -236,6 +245,9 @@ func c12Run(t *testing.T, c *explore.Ctx, cfg c12Cfg, constant string) *c12Resul
 			WithDelay(time.Duration(cfg.DelayMs)*time.Millisecond, time.Duration(cfg.MaxMs)*time.Millisecond),
 		)
 		for op := 0; op < cfg.Ops; op++ {
+			if op > 0 && cfg.GapMs > 0 {
+				time.Sleep(time.Duration(cfg.GapMs) * time.Millisecond)
+			}
 			rt.op = op
 			req := &Req{Host: "up.example", Method: cfg.Method, Repository: "proj", Path: "blobs/x"}
 			if cfg.Expect {
@@ -329,7 +341,7 @@ func c12Judge(cfg c12Cfg, r *c12Result, constant string) (string, string) {
 			anyHas = true
 		}
 	}
-	if constant == "" && cfg.Ops == 1 && anyHas && noFailing(cfg) {
+	if constant == "" && cfg.Ops == 1 && cfg.Prime == "" && anyHas && noFailing(cfg) {
 		all := true
 		is503 := false
 		for _, f := range r.faults {
@@ -468,6 +480,17 @@ func c12Grid(thorough bool) []c12Item {
 	// two logical requests through one client (host back-off state carries over)
 	for _, lim := range []int{2, 3} {
 		out = append(out, c12Item{c12Cfg{Limit: lim, DelayMs: 100, MaxMs: 30000, UpState: "has", Method: "GET", Expect: true, Ops: 2}, b})
+	}
+	// a host with a failure history (one absorbed fault), an idle period longer than every back-off
+	// delay, then more faults: back-off must restart from the present
+	for _, lim := range []int{3, 5} {
+		for _, d := range [][2]int{{100, 200}, {100, 30000}} {
+			for _, gap := range []int{1500, 120000} {
+				for _, prime := range []string{"500", "429", "reset"} {
+					out = append(out, c12Item{c12Cfg{Limit: lim, DelayMs: d[0], MaxMs: d[1], UpState: "has", Method: "GET", Expect: true, Ops: 2, GapMs: gap, Prime: prime}, b})
+				}
+			}
+		}
 	}
 	// mirror sets
 	states := []string{"has", "lacks", "fails"}
